@@ -4,8 +4,10 @@
 
 mod c01;
 mod c04;
+mod c11;
 mod c12;
 mod c13;
+mod c14;
 mod drive;
 mod mc;
 mod pkt;
@@ -27,8 +29,10 @@ fn main() {
     let code = match argv[1].as_str() {
         "C01" => c01::run(&args),
         "C04" => c04::run(&args),
+        "C11" => c11::run(&args),
         "C12" => c12::run(&args),
         "C13" => c13::run(&args),
+        "C14" => c14::run(&args),
         other => {
             eprintln!("MACHINERY: unknown property {other}");
             2
